@@ -10,7 +10,6 @@ import (
 	sdk "github.com/cosmos/cosmos-sdk/types"
 	"pgregory.net/rapid"
 
-	ophosttypes "github.com/initia-labs/OPinit/x/ophost/types"
 
 	"verifharness/evid"
 )
@@ -27,6 +26,10 @@ type c01Frame struct {
 
 func (w *l1World) watchIDs() []uint64 {
 	var ids []uint64
+	if len(w.active) > 0 {
+		ids = append(ids, w.active...)
+		return append(ids, w.nextID, w.nextID+1, 3, 64, 77)
+	}
 	for id := uint64(1); id <= w.nextID+1; id++ {
 		ids = append(ids, id)
 	}
@@ -37,7 +40,7 @@ func (w *l1World) frame() c01Frame {
 	f := c01Frame{digest: w.e.Digest(), balances: w.balances(), bridges: map[uint64]string{}, escrow: map[uint64]sdk.Coins{}}
 	for _, id := range w.watchIDs() {
 		f.bridges[id] = w.e.BridgeDigest(id, nil)
-		f.escrow[id] = w.e.BK.GetAllBalances(w.e.Ctx, ophosttypes.BridgeAddress(id))
+		f.escrow[id] = w.e.BK.GetAllBalances(w.e.Ctx, escrowAddr(id))
 	}
 	return f
 }
@@ -60,7 +63,7 @@ func c01Check(w *l1World, st *l1Step, pre, post c01Frame) error {
 	// (1) ledger
 	for _, id := range w.watchIDs() {
 		for _, d := range w.denoms {
-			got := w.e.Balance(ophosttypes.BridgeAddress(id), d)
+			got := w.e.Balance(escrowAddr(id), d)
 			want := w.expectedEscrow(id, d)
 			if !got.Equal(want) {
 				return fmt.Errorf("escrow of bridge %d holds %s%s, ledger (deposits - claims + direct sends) says %s", id, got, d, want)
@@ -128,7 +131,7 @@ func TestC01Rapid(t *testing.T) {
 	rec := evid.For("C01")
 	runRapid(t, 150, 5000, func(rt *rapid.T) {
 		c := rec.Begin()
-		w := newL1World(rt, l1Cfg{weights: c01Weights, maxBridges: 4, withFee: true, badCfgProb: 5,
+		w := newL1World(rt, l1Cfg{weights: c01Weights, maxBridges: 4, withFee: true, badCfgProb: 5, manyBridges: true,
 			periods: []time.Duration{time.Second, time.Minute, time.Hour}})
 		// start with one or two bridges so that most histories are about several bridges
 		for i := rapid.IntRange(1, 2).Draw(rt, "initial"); i > 0; i-- {
@@ -177,7 +180,11 @@ func TestC01Rapid(t *testing.T) {
 			c.NonTrivial()
 			c.Shape(shape)
 		}
-		c.Classf("bridges=%d", len(w.ids))
+		if len(w.active) > 0 {
+			c.Class("chain-with-65-or-more-bridges")
+		} else {
+			c.Classf("bridges=%d", len(w.ids))
+		}
 		c.Sample(func() interface{} { return map[string]interface{}{"history": w.log} })
 		c.Done()
 	})
